@@ -56,6 +56,10 @@ def nat_instance(i, K, M, pre):
         m.Y[2] = np.nan
     elif pre == 'inf':
         m.A[2] = np.inf
+    elif pre == 'nan-at-source':
+        m.Y[1] = np.nan  # period 2 is clean; an offset of -1 copies the NaN in
+    elif pre == 'nan-overwritten':
+        m.Y[2] = np.nan  # an offset of -1 overwrites it with the finite values of period 1
     return m
 
 
@@ -77,7 +81,7 @@ def blocks(tier, seed):
 def run_nat_case(case):
     i = case['i']
     kw = dict(min_iter=case['min_iter'], max_iter=case['max_iter'], tol=1e-10, failures=case['failures'],
-              errors=case['errors'], catch_first_error=case['cfe'])
+              errors=case['errors'], catch_first_error=case['cfe'], offset=case.get('offset', 0))
     a = nat_instance(i, case['K'], case['M'], case['pre'])
     b = nat_instance(i, case['K'], case['M'], case['pre'])
     t = case['t']
@@ -115,10 +119,10 @@ def run_natural(block, tier, acc):
                 for errors in ('raise', 'skip', 'ignore', 'replace', 'bogus'):
                     for failures in ('raise', 'ignore'):
                         for cfe in (True, False):
-                            for pre in ('none', 'nan', 'inf'):
+                            for pre, offset in (('none', 0), ('nan', 0), ('inf', 0), ('nan-at-source', -1), ('nan-overwritten', -1), ('none', -1)):
                                 for t in ((2,) if tier == 'quick' else (2, -2)):
                                     case = dict(kind='natural', i=i, K=K, M=M, max_iter=max_iter, min_iter=min_iter, errors=errors,
-                                                failures=failures, cfe=cfe, pre=pre, t=t, script=NATURAL[i][1])
+                                                failures=failures, cfe=cfe, pre=pre, offset=offset, t=t, script=NATURAL[i][1])
                                     acc.evaluations += 1
                                     try:
                                         with guard(10):
